@@ -24,9 +24,8 @@ def run(chk):
     try:
         picked = []
         for name, maxvar, stride in progcheck.dev_filter(plans(chk.tier)):
-            kw = dict(progcheck.CORPORA[name])
-            keep = kw.pop("keep", None)
-            kw.pop("observe_all", None)
+            kw, flags = progcheck.corpus_kwargs(name)
+            keep = flags["keep"]
             behs, res = replay.generate_programs(rundir=rd, timeout=3000, **kw)
             chk.add_tlc(res, f"gen:{name}")
             if keep is not None:
